@@ -29,6 +29,10 @@ pub enum AOutcome {
     End,
     /// Sink: Ready(Err) / Err
     Error,
+    /// the inner object panics after its steps (unwinding through whatever the steps left open
+    /// and through the adapter's own scope); the caller contains the panic, as an executor does
+    /// around a task poll, and only drops the adapter afterwards
+    Panic,
 }
 
 #[derive(Clone, Debug, PartialEq)]
@@ -92,6 +96,10 @@ pub enum Op {
     /// Child / ChildLocal / LEnter with np > 0); its closure runs `steps` on the calling thread
     /// before returning the properties (re-entrant use of the API from user closures)
     Reent { host: Box<Op>, steps: Vec<Op> },
+    /// user code that panics: `steps` run, then a panic unwinds through whatever guards and local
+    /// spans the steps left open (they are dropped in reverse order while the thread is
+    /// panicking) and is caught by the caller, e.g. a request handler under `catch_unwind`
+    Unwind { steps: Vec<Op> },
 }
 
 impl Op {
@@ -124,9 +132,11 @@ impl Op {
             Op::Fill { .. } => "fill",
             Op::Exit => "thread_exit",
             Op::ANew { .. } => "adapter_new",
+            Op::ACall { outcome: AOutcome::Panic, .. } => "adapter_call_inner_panics",
             Op::ACall { .. } => "adapter_call",
             Op::ADrop { .. } => "adapter_drop",
             Op::Reent { .. } => "reentrant_closure",
+            Op::Unwind { .. } => "panic_unwinds_scopes",
         }
     }
 }
@@ -211,6 +221,7 @@ pub fn flat_len(op: &Op) -> usize {
     match op {
         Op::ACall { steps, .. } => 2 + steps.iter().map(flat_len).sum::<usize>(),
         Op::Reent { steps, .. } => 2 + steps.iter().map(flat_len).sum::<usize>(),
+        Op::Unwind { steps } => 2 + steps.iter().map(flat_len).sum::<usize>(),
         _ => 1,
     }
 }
